@@ -27,7 +27,8 @@ from runner import Infra, TieBroken, isolated_map, generated_changed
 
 ID = "C05"
 LEAN_MODULES = ["PyYetiVerif.Props.C05", "PyYetiVerif.Props.C05Gen", "PyYetiVerif.Props.C05Struct",
-                "PyYetiVerif.Props.C05TwoPass", "PyYetiVerif.Props.C05Dup", "PyYetiVerif.Audit.C05"]
+                "PyYetiVerif.Props.C05TwoPass", "PyYetiVerif.Props.C05Dup", "PyYetiVerif.Props.C05Plateau",
+                "PyYetiVerif.Audit.C05"]
 AUDIT_FILE = "PyYetiVerif/Audit/C05.lean"
 THEOREMS = [
     "PyYetiVerif.C05." + n
@@ -49,7 +50,10 @@ THEOREMS = [
         "duplicate_first range_le_overall duplicate_first_field plateau_erases_point "
         "duplicate_insertion_not_harmless monotone_points_are_counted "
         # duplicate_insertion for interior points, exact condition: Props/C05Dup.lean
-        "duplicate_insertion_interior"
+        "duplicate_insertion_interior "
+        # runs of k >= 2 equal points: Props/C05Plateau.lean
+        "plateau_zero_rows plateau_insertion_general plateau_ends_record plateau_at_start "
+        "rainflow_plateau_parity rainflow_plateau_compress_false"
     ).split()
 ]
 TRUSTED = [
@@ -79,7 +83,8 @@ RULE = (
     "index, Index, memoryview, array.array, range, 0-d, 1xn, nx1, 3-d, empty, one point, bool/int*/uint*/float16/32/64/"
     "longdouble, strided/negative-stride/Fortran/read-only/byte-swapped/unaligned views) on every entry point; call "
     "sequences: random sessions of calls with getoffsets omitted / keyword / positional and use_pandas omitted/True/False "
-    "on one set of modules. NaN/inf inputs, complex, object and masked arrays are outside the property's domain: "
+    "on one set of modules; plateau oracle: records over 3..10 pairwise distinct integers with 1..3 positions replaced by runs "
+    "of 2..6 copies (start, interior, end), each compared with its parity-compressed record on every implementation. NaN/inf inputs, complex, object and masked arrays are outside the property's domain: "
     "skipped and counted."
 )
 ASSUMPTIONS = [
@@ -108,7 +113,9 @@ MANIFEST = {
     "table) never fail and compute the model's table (generated_*_eq_model, generated_c_*_eq_model, "
     "generated_c_*_twopass_eq_model, generated_c_twopass_eq_fast, generated_c_eq_generated_py), so every theorem "
     "holds of what the source says now. A repeated interior point is kept (zero half cycle) iff it is the last "
-    "point, otherwise both copies are erased as one zero full cycle (duplicate_insertion_interior). (3) Entry points: ValueError iff not a vector of >= 2 points, result shape, the wrapper is "
+    "point, otherwise both copies are erased as one zero full cycle (duplicate_insertion_interior); runs of any length "
+    "compress by parity, not to one point (plateau_insertion_general, plateau_at_start, rainflow_plateau_parity, "
+    "rainflow_plateau_compress_false). (3) Entry points: ValueError iff not a vector of >= 2 points, result shape, the wrapper is "
     "a relabelling, results do not depend on the call history. Tie: the translator (regenerated and re-proved every "
     "run) + exact correspondence of model, generated programs (bit for bit at IEEE doubles, including non-dyadic "
     "values) and entry model with py_rain, gcc-built c_rain (both macro settings) and the wrapper over containers, "
@@ -121,7 +128,9 @@ MANIFEST = {
     "real-number ASTM procedure is not claimed. 'largest range is always counted' is proved for true reversal "
     "sequences only (`[0,1,2]` shows the hypothesis is necessary). The two implementations agree only for dtypes that "
     "cast safely to float64: for np.longdouble (also complex, object) c_rain raises TypeError where py_rain counts "
-    "(entry_impls_agree_partial; reported as a failing input). numba variant = same source text, not executed.",
+    "(entry_impls_agree_partial; reported as a failing input). numba variant = same source text, not executed. The plateau "
+    "theorems are about one run; that they compose over several runs in one record (pairwise distinct other values) is "
+    "measured on py_rain, both c_rain builds and the wrapper (oracle families plateau-parity, plateau-zero-rows), not proved.",
     "technique": "Lean 4 proof (induction over the stack machine, refinement to an ASTM spec, refinement of "
     "source-to-Lean shallow embeddings of py_rain.py, cyclecount.py and c_rain.c to the model) + exact differential correspondence "
     "with py_rain, gcc-built c_rain and the wrapper",
@@ -134,7 +143,15 @@ PARTIAL = (
     "(first point: one zero half cycle in front), duplicate_insertion_interior (a copy of an interior point whose "
     "neighbour below on the stack differs is KEPT as a zero half cycle iff it is the last point of the input, and "
     "ERASED together with the original as one zero FULL cycle as soon as any point follows), plateau_erases_point, "
-    "the counterexample duplicate_insertion_not_harmless; not covered: a run of three or more equal points. "
+    "the counterexample duplicate_insertion_not_harmless; runs of any length k >= 2: plateau_at_start (k-1 zero half cycles, "
+    "then the compressed record), plateau_insertion_general / plateau_ends_record (interior or last position, stack "
+    "x :: w :: rest with w != x: a run of 2j+1 gains j zero full cycles and continues like ONE copy, a run of 2j+2 gains "
+    "j zero full cycles and continues like TWO copies), rainflow_plateau_parity (offset-free table: runs compress by "
+    "parity) and rainflow_plateau_compress_false (compressing every run to one point does NOT preserve the non-zero "
+    "rows); these are stated for ONE run relative to the machine state before it (hypothesis w != x: the point under the "
+    "run on the stack has a different value, which an input without plateaus can violate, e.g. 5,2,3,5); a whole-record "
+    "statement over all runs at once is only checked by the model-free oracle (families plateau-parity, "
+    "plateau-zero-rows: records over pairwise distinct values with runs of 2..6 copies), not proved. "
     "c_rain.c: rainflow1/rainflow2 are translated AND proved equal to the model for both macro settings "
     "(generated_c_rainflow1/2_eq_model for the shipped one, which also pin `shippedFast = true`; "
     "generated_c_rainflow1/2_twopass_eq_model for the two-pass build); the C entry function `rainflow` (O|p parsing, "
@@ -849,6 +866,53 @@ def _oracle_one(ctx, impls, seq, scale):
 
 
 
+def _plateau_record(base, runs):
+    out = []
+    for i, v in enumerate(base):
+        out += [v] * runs.get(i, 1)
+    return out
+
+
+def _oracle_plateau(ctx, impls, base, runs):
+    """Props/C05Plateau.lean restated on the real routines, model-free: `base` has pairwise distinct values, `runs`
+    maps a position to the length of the run of copies put there.  (1) the non-zero-range rows (amplitude, mean,
+    count, in order) of the record are those of the record with every run compressed BY PARITY (odd -> 1 copy,
+    even -> 2 copies; a run at the very start -> 1 copy); (2) the zero-range rows are exactly: k-1 half cycles for a
+    run of k at the start, floor(k/2) full cycles for a run inside, floor((k-1)/2) full cycles plus one half cycle
+    (k even) for a run that ends the record."""
+    last = len(base) - 1
+    runs = {int(i): int(k) for i, k in runs.items()}
+    rec = _plateau_record(base, runs)
+    comp = _plateau_record(base, {i: (1 if i == 0 or k % 2 else 2) for i, k in runs.items()})
+    want_full = sum(k // 2 for i, k in runs.items() if 0 < i < last) + sum((k - 1) // 2 for i, k in runs.items() if i == last)
+    want_half = sum(k - 1 for i, k in runs.items() if i == 0) + sum(1 for i, k in runs.items() if i == last and k % 2 == 0)
+    for name, fn in impls.items():
+        inp = {"seq": list(base), "scale": 1, "runs": {str(i): k for i, k in runs.items()}, "impl": name}
+        a = np.asarray(fn(np.array(rec, dtype=float), getoffsets=True)[0])
+        b = np.asarray(fn(np.array(comp, dtype=float), getoffsets=True)[0])
+        nz_a = [tuple(r) for r in a.tolist() if r[0] != 0]
+        nz_b = [tuple(r) for r in b.tolist() if r[0] != 0]
+        if nz_a != nz_b:
+            ctx.fail("plateau-parity", "%s: the non-zero rows of a record with runs of equal points are not those of the "
+                     "record with every run compressed by parity (odd -> 1, even -> 2 copies)" % name, inp, nz_a[:8], nz_b[:8])
+        z = [r[2] for r in a.tolist() if r[0] == 0]
+        got = [sum(1 for c in z if c == 1.0), sum(1 for c in z if c == 0.5)]
+        if got != [want_full, want_half]:
+            ctx.fail("plateau-zero-rows", "%s: the zero-range rows of a record with runs of equal points are not the ones "
+                     "the plateau theorems name [full, half]" % name, inp, got, [want_full, want_half])
+
+
+def _gen_plateau(ctx, n):
+    rng = ctx.rng
+    out = []
+    for _ in range(n):
+        L = rng.randint(3, 10)
+        base = rng.sample(range(-12, 13), L)
+        pos = rng.sample(range(L), rng.randint(1, min(3, L)))
+        out.append((tuple(base), {i: rng.randint(2, 6) for i in pos}))
+    return out
+
+
 def _want_rows(x):
     ref = _astm_reference(np.asarray(x, float).tolist())
     return [tuple(float(v) for v in r[:3]) + (r[3], r[4]) for r in ref]
@@ -1016,20 +1080,33 @@ def search(ctx, hints):
     # the entry-point oracle (containers, wrapper packaging, sessions) on the hints, the corpus and every 9th (thorough: 40th) case
     every = ctx.pick(9, 40)
     cases = [(c[0], c[1], i < nfirst or i % every == 0) for i, c in enumerate(cases)]
+    # records with runs of 2..6 equal points over pairwise distinct values (Props/C05Plateau.lean, model-free)
+    fixed = [((0, 5, 1), {1: k}) for k in range(2, 7)] + [((5, 1, 4), {0: k}) for k in range(2, 7)] \
+        + [((0, 5, 1), {2: k}) for k in range(2, 7)] + [((3, 9, 1, 7, 2), {1: 4, 3: 3}), ((3, 9, 1, 7, 2), {0: 3, 2: 6, 4: 2})]
+    cases += [(b, r, "plateau") for b, r in fixed + _gen_plateau(ctx, ctx.pick(400, 4000))]
     def one(case):
         sub = type(ctx).__new__(type(ctx))
         sub.failures = []
         sub.fail = lambda *a: type(ctx).fail(sub, *a)
+        if case[2] == "plateau":
+            _oracle_plateau(sub, impls, case[0], case[1])
+            return sub.failures
         _oracle_one(sub, impls, case[0], case[1])
-        if case[2]:
+        if case[2] is True:
             _oracle_entry(sub, impls, case[0], case[1])
         return sub.failures
 
     res = isolated_map(one, cases, chunk=2000)
     for case, r in zip(cases, res):
         ctx.count("oracle-cases")
+        if case[2] == "plateau":
+            ctx.count("oracle-plateau-cases")
         if isinstance(r, str):
             if sum(1 for g in ctx.failures if g["family"] == "crash") >= 4:
+                continue
+            if case[2] == "plateau":
+                ctx.fail("crash", "the compiled routine crashes the interpreter (%s)" % r,
+                         {"seq": list(case[0]), "scale": 1, "runs": {str(i): k for i, k in case[1].items()}}, r, "a cycle table")
                 continue
             ctx.fail("crash", "the compiled routine crashes the interpreter (%s)" % r,
                      {"seq": list(case[0]), "scale": case[1]}, r, "a cycle table")
@@ -1047,6 +1124,10 @@ def replay(ctx, data):
     case = (tuple(f["input"]["seq"]), f["input"]["scale"])
 
     def one(c):
+        if "runs" in f["input"]:
+            _oracle_plateau(ctx, impls, c[0], f["input"]["runs"])
+            if f["family"] == "crash":   # the call that crashed is the one on the record with the runs
+                impls["cfast"](np.array(_plateau_record(c[0], {int(i): k for i, k in f["input"]["runs"].items()}), dtype=float))
         _oracle_one(ctx, impls, c[0], c[1])
         _oracle_entry(ctx, impls, c[0], c[1])
         return [g for g in ctx.failures if g["family"] == f["family"]] or ctx.failures
